@@ -39,15 +39,18 @@
      hypotheses but WF as booleans (`fix_hyps`, `fix_second`);
      `fixpoint_no_create_delete` [M] the weaker reading (no create / delete
      request, inventory Leibniz-equal); `fixpoint_monitor` [M]: the executable
-     `c03_fixpoint` accepts the model's own two-run history.
+     `c03_fixpoint` accepts the model's own two-run history (premises: WF, empty
+     invalid set of the first plan, duplicate-free initial inventory; the agreement of
+     the pruning options is checked by `same` itself).
    * `fix_two_needs_prune_agree`: in the two-scenario statement the premise "sc2
-     prunes only if sc1 pruned" is necessary (vm_compute witness; `same` inside
-     c03_fixpoint does not compare o_prune, so the executable check rejects that
-     legitimate history).
+     prunes only if sc1 pruned" is necessary for `fix_ok` (vm_compute witness; `same`
+     inside c03_fixpoint compares the pruning options, so the executable check
+     accepts that legitimate history: it is not "the same apply").
    * `fix_two_needs_no_invalid`: in the two-scenario statement the premise
      `pl_invalid (plan_of sc1 c0) = []` is necessary when sc2 may REPAIR an invalid
      manifest (same id, annotation no longer malformed): the second run creates the
-     object (`same` inside c03_fixpoint compares neither l_baddep nor l_finv).
+     object (`same` inside c03_fixpoint compares l_baddep and l_finv, so the
+     executable check accepts that history).
    * `fix_two_needs_nodup`: in the two-scenario statement `NoDup (prev_of c0)` is
      necessary when sc2 may rewrite the inventory (StatusPolicyAll): a stored list
      [0; 0] left untouched by the first run is rewritten as [0].
@@ -296,19 +299,22 @@ Section WithMonitor.
     - symmetry. apply optl_eqb_eq. exact F2.
   Qed.
 
-  (* the executable check of the correspondence accepts the model's own history of two runs *)
+  (* the executable check of the correspondence accepts the model's own history of two runs; "the second
+     run prunes only if the first one did" is part of `same` inside c03_fixpoint (as are the validity
+     attributes l_baddep / l_finv of the manifests), so it is no premise here.  The premise on the invalid
+     set stays: with identical manifests the SAME-scenario invalid case is exactly what is not proved. *)
   Theorem fixpoint_monitor : forall sc1 sc2 c0,
     WF sc1 c0 -> pl_invalid (plan_of sc1 c0) = [] -> NoDup (prev_of c0) ->
-    (o_prune (sc_opts sc2) = true -> o_prune (sc_opts sc1) = true) ->
     c03_fixpoint c0 [(sc1, run sc1 c0); (sc2, run sc2 (out_final (run sc1 c0)))] = true.
   Proof.
-    intros sc1 sc2 c0 HWF HINV HNDI HPR. cbn [c03_fixpoint]. rewrite andb_true_r.
+    intros sc1 sc2 c0 HWF HINV HNDI. cbn [c03_fixpoint]. rewrite andb_true_r.
     match goal with |- negb ?g || _ = true => destruct g eqn:G end; [|reflexivity]. cbn [negb orb].
     apply andb_true_iff in G. destruct G as [G _]. apply andb_true_iff in G. destruct G as [S C1].
     apply andb_true_iff in S. destruct S as [S _].
     apply andb_true_iff in S. destruct S as [S A7].
     apply andb_true_iff in S. destruct S as [S A6].
     apply andb_true_iff in S. destruct S as [S A5].
+    apply andb_true_iff in S. destruct S as [S AP].
     apply andb_true_iff in S. destruct S as [S _].
     apply andb_true_iff in S. destruct S as [S A3].
     apply andb_true_iff in S. destruct S as [A1 A2].
@@ -316,6 +322,7 @@ Section WithMonitor.
     - unfold clean_run, first_opts. rewrite A1, A5. cbn [andb]. exact C1.
     - unfold fix_opts. rewrite A2, A6, A7. reflexivity.
     - symmetry. apply nl_eqb_eq. exact A3.
+    - intros P2. rewrite P2 in AP. cbn in AP. exact AP.
   Qed.
 End WithMonitor.
 
@@ -371,13 +378,13 @@ Proof. vm_compute. split; reflexivity. Qed.
 
 (* ---- the two-scenario statement needs "the second run prunes only if the first one did" ------------ *)
 (* first run without pruning (object 2 stays tracked), second run with pruning: object 2 is deleted.
-   `same` inside c03_fixpoint does not compare o_prune, so the executable check rejects this
-   (legitimate) history *)
+   `same` inside c03_fixpoint compares the pruning options (a second run that prunes what the first
+   one was told to leave is not "the same apply"), so the executable check accepts this history *)
 Lemma fix_two_needs_prune_agree : exists sc1 sc2 c0,
   WF sc1 c0 /\ fix_hyps sc1 c0 = true /\ fix_opts sc2 = true /\
   map l_id (sc_local sc2) = map l_id (sc_local sc1) /\
   fix_ok (out_final (run sc1 c0)) (run sc2 (out_final (run sc1 c0))) = false /\
-  c03_fixpoint c0 [(sc1, run sc1 c0); (sc2, run sc2 (out_final (run sc1 c0)))] = false.
+  c03_fixpoint c0 [(sc1, run sc1 c0); (sc2, run sc2 (out_final (run sc1 c0)))] = true.
 Proof.
   exists (fix_ex_sc false), (fix_ex_sc true), fix_ex_c0. split; [apply fix_ex_WF|].
   vm_compute. repeat split; reflexivity.
@@ -405,7 +412,8 @@ Lemma fix_two_needs_no_invalid : exists sc1 sc2 c0,
   pl_invalid (plan_of sc1 c0) <> [] /\
   fix_ok (out_final (run sc1 c0)) (run sc2 (out_final (run sc1 c0))) = false /\
   In (RCreate 0 false, true) (reqs (out_trace (run sc2 (out_final (run sc1 c0))))) /\
-  c03_fixpoint c0 [(sc1, run sc1 c0); (sc2, run sc2 (out_final (run sc1 c0)))] = false /\
+  (* `same` inside c03_fixpoint compares l_baddep / l_finv: the executable check accepts this history *)
+  c03_fixpoint c0 [(sc1, run sc1 c0); (sc2, run sc2 (out_final (run sc1 c0)))] = true /\
   (* with the identical scenario the fixpoint holds on this instance *)
   fix_ok (out_final (run sc1 c0)) (run sc1 (out_final (run sc1 c0))) = true.
 Proof.
